@@ -24,8 +24,12 @@ RULE = ('(A) histories (<=30 ops) over the real logs API with up to 3 simultaneo
         'window; every properly delimited MAC is cut after its vendor prefix and the rest of the text is unchanged; after "end" '
         'the handler list is the baseline and the finished record no longer changes.  (B) real Tests: 1-2 tests executed '
         'concurrently in threads whose phases log through test.logger, plug loggers and get_record_logger_for(test.uid) with '
-        'yields in between, and 1-3 consecutive runs followed by late logging.  Non-trivial = two live runs, or a message '
-        'containing a MAC, or dict-style args; distinct by canonical case.')
+        'yields in between, and 1-3 consecutive runs followed by late logging.  (C) 2-3 runs that attach their record handler, log '
+        'through their record logger and detach again, each in its own thread under the deterministic scheduler with every line of '
+        'openhtf.util.logs a preemption point: ALL schedules with <=2 preemptions (2 runs) / <=1 (3 runs; thorough <=2); oracle: '
+        'afterwards no RecordHandler is attached, every run holds exactly its own messages once and in order, a framework '
+        'message logged afterwards changes no record.  Non-trivial = two live runs, or a message containing a MAC, or dict-style '
+        'args, or (C) a schedule with an effective preemption; distinct by canonical case.')
 ASSUMPTIONS = ['MACs are generated delimited by spaces; near-MACs (5 or 7 octets) only have to be recorded, their text is not compared.',
                'Concurrency in (B) uses real threads with yields; the oracle is schedule independent.']
 
@@ -329,9 +333,110 @@ def real_cases(draw):
   return {'tests': tests, 'consecutive': draw(st.integers(1, 3)), 'late': draw(st.booleans())}
 
 
+# ------------------------------------------------------------------ (C) runs starting/logging/ending concurrently, scheduled
+_SCHED = {'ready': False}
+
+
+def check_sched(case):
+  """case = {'slots': n, 'msgs': k, 'plan': {yield index: thread choice}}.
+
+  n runs share the "openhtf" logger exactly as TestState does it: initialize_record_handler at start, messages through the
+  run's record logger, remove_record_handler at the end - each in its own thread, under the deterministic scheduler with
+  line-granular preemption inside openhtf.util.logs.
+  """
+  from vf import vmode  # pylint: disable=g-import-not-at-top
+  from vf import vsched as V  # pylint: disable=g-import-not-at-top
+  import threading as real_threading  # pylint: disable=g-import-not-at-top
+  r = CaseResult()
+  vmode.setup()
+  from openhtf.core import test_record  # pylint: disable=g-import-not-at-top
+  from openhtf.util import logs  # pylint: disable=g-import-not-at-top
+  if not _SCHED['ready']:
+    V.install_proxies([logging])    # handler locks created by scheduled threads become scheduler-aware
+    _SCHED['ready'] = True
+  V.monitor_lines(V.code_objects_of(logs.initialize_record_handler, logs.remove_record_handler, logs.get_record_logger_for,
+                                    logs.RecordHandler, logs.TestUidFilter))
+  htf_logger = logging.getLogger('openhtf')
+  saved_level = htf_logger.level
+  htf_logger.setLevel(logging.DEBUG)
+  n, k = case['slots'], case['msgs']
+  plan = {int(a): b for a, b in (case.get('plan') or {}).items()}
+
+  def fn(s):
+    recs = [test_record.TestRecord(dut_id='D%d' % i, station_id='st') for i in range(n)]
+    uids = ['uid-%d-%s' % (i, 'abc'[i]) for i in range(n)]
+    errs = []
+
+    def slot(i):
+      try:
+        logs.initialize_record_handler(uids[i], recs[i], lambda: None)
+        lg = logs.get_record_logger_for(uids[i])
+        for j in range(k):
+          lg.info('slot %d message %d', i, j)
+        logs.remove_record_handler(uids[i])
+      except Exception as e:  # pylint: disable=broad-except
+        errs.append(repr(e))
+
+    ths = []
+    for i in range(n):
+      t = real_threading.Thread(target=slot, args=(i,), name='slot%d' % i)
+      t.daemon = True
+      t.start()
+      ths.append(t)
+    for t in ths:
+      t.join()
+    left = [h.test_uid for h in htf_logger.handlers if isinstance(h, logs.RecordHandler)]
+    before = [[l.message for l in rec.log_records] for rec in recs]
+    logging.getLogger('openhtf.core.late').warning('logged after every run has ended')
+    after = [[l.message for l in rec.log_records] for rec in recs]
+    htf_logger.handlers[:] = [h for h in htf_logger.handlers if not isinstance(h, logs.RecordHandler)]
+    return left, before, after, errs
+
+  try:
+    s = V.Scheduler(plan=plan, time_limit=1e4, max_steps=100000)
+
+    def main():
+      with V.module_locks(logs):
+        return fn(s)
+
+    res, exc = s.run(main, watchdog_s=15.0)
+  finally:
+    htf_logger.setLevel(saved_level)
+    htf_logger.handlers[:] = [h for h in htf_logger.handlers if not isinstance(h, logs.RecordHandler)]
+  if s.failure is not None:
+    if s.failure[0] in ('deadlock', 'steplimit'):
+      r.bad('C19/sched/hang', s.failure[1][:300])
+      return r, s
+    raise RuntimeError('scheduler failure %r' % (s.failure,))
+  if exc is not None:
+    raise exc
+  left, before, after, errs = res
+  tag = 'slots=%d msgs=%d plan=%r' % (n, k, case.get('plan'))
+  if errs:
+    r.bad('C19/sched/raised', '%s: %s' % (tag, errs[0]))
+  if left:
+    r.bad('C19/sched/handler-remains-after-end', '%s: record handlers of %r still attached after every run ended' % (tag, left))
+  for i in range(n):
+    want = ['slot %d message %d' % (i, j) for j in range(k)]
+    own = [m for m in before[i] if m.startswith('slot ')]
+    if own != want:
+      foreign = [m for m in own if not m.startswith('slot %d ' % i)]
+      r.bad('C19/sched/%s' % ('foreign-message' if foreign else 'lost-or-duplicated-message'),
+            '%s: run %d logged %r through its record logger, its record holds %r' % (tag, i, want, own))
+      break
+  if before != after and not left:
+    r.bad('C19/sched/finished-record-altered', '%s: %r -> %r' % (tag, before, after))
+  r.nontrivial = bool(s.effective_preemptions)
+  r.classes = ['sched', 'slots:%d' % n, 'msgs:%d' % k, 'preemptions:%d' % min(len(s.effective_preemptions), 3)]
+  return r, s
+
+
 def plan(tier, seed):
   q = tier == 'quick'
   jobs = []
+  for n, k, bound, nsh in ([(2, 1, 2, 8), (2, 2, 1, 1), (3, 1, 1, 1)] if q else [(2, 1, 2, 8), (2, 2, 2, 16), (3, 1, 2, 16), (3, 2, 1, 1)]):
+    for sh in range(nsh):
+      jobs.append({'kind': 'sched', 'name': 'sched.%d.%d.%d' % (n, k, sh), 'slots': n, 'msgs': k, 'bound': bound, 'shard': sh, 'nshards': nsh})
   for i in range(8):
     jobs.append({'kind': 'hist', 'name': 'hist%d' % i, 'hseed': seed * 1000 + i, 'n': 500 if q else 12000})
   for i in range(8):
@@ -344,6 +449,26 @@ def run_job(job, acct):
   if job['kind'] == '_regress':
     from vf import runner  # pylint: disable=g-import-not-at-top
     runner.run_regress(sys.modules[__name__], job, acct)
+  elif job['kind'] == 'sched':
+    import itertools  # pylint: disable=g-import-not-at-top
+    base = {'slots': job['slots'], 'msgs': job['msgs'], 'plan': {}}
+    r0, s0 = check_sched(base)
+    npts = s0.k + 2
+    i = 0
+    for b in range(0, job['bound'] + 1):
+      for ks in itertools.combinations(range(npts), b):
+        for cs in itertools.product(range(job['slots']), repeat=b):
+          i += 1
+          if i % job['nshards'] != job['shard']:
+            continue
+          case = dict(base, plan={str(a): c for a, c in zip(ks, cs)})
+          r, _ = check_sched(case)
+          acct.case(case, r.nontrivial, r.classes)
+          for sig, detail in r.violations:
+            (acct.known if sig in known else acct.violation)(sig, case, detail)
+    if job['shard'] == 0:
+      acct.exhaustive_parts.append('%d concurrent runs x %d messages: all schedules with <=%d preemptions over %d yield points' % (
+          job['slots'], job['msgs'], job['bound'], npts))
   elif job['kind'] == 'hist':
     hyp.search(acct, histories(), check_history, seed=job['hseed'], max_examples=job['n'], known=known)
   else:
@@ -351,6 +476,8 @@ def run_job(job, acct):
 
 
 def replay(case):
+  if 'slots' in case:
+    return check_sched(case)[0].violations
   if 'ops' in case:
     return check_history(case).violations
   return check_real(case).violations
